@@ -139,6 +139,9 @@ Section SpecFacts.
     - intros H. apply fields_opt_complete; [exact H | apply length_dropW].
   Qed.
 
+  Lemma SplitSpec_fun l fs1 fs2 : SplitSpec cls l fs1 -> SplitSpec cls l fs2 -> fs1 = fs2.
+  Proof. intros H1 H2. exact (Fields_fun _ _ H1 _ H2). Qed.
+
   (* the fuel never runs out *)
   Lemma split_spec_total l : exists fs, split_spec cls l = Some fs.
   Proof.
